@@ -30,6 +30,50 @@ COUNTERPART = {
 }
 SELF_ATTENTION = {F + "softmax", F + "scaled_dot_product_attention", "unit_scaling.functional.softmax", "unit_scaling.functional.scaled_dot_product_attention"}
 
+NN_WRAPPERS = {
+    "Softmax": "activation.py", "GELU": "activation.py", "SiLU": "activation.py", "LayerNorm": "normalization.py",
+    "RMSNorm": "normalization.py", "Embedding": "sparse.py", "Dropout": "dropout.py", "Linear": "linear.py",
+    "Conv1d": "conv.py", "CrossEntropyLoss": "loss.py", "MSELoss": "loss.py",
+}
+
+
+def nn_wrapper_call_forms() -> Dict[str, List[Tuple[str, int, List[str], str]]]:
+    """For each torch.nn wrapper module: the F.<fn>(...) calls in its forward / _conv_forward, as
+    (fn, number of positional arguments, keyword names, file:line), read from the installed torch sources."""
+    import ast as _ast
+    import sys as _sys
+    from pathlib import Path as _Path
+
+    root = None
+    for p_ in _sys.path:
+        if (_Path(p_) / "torch" / "nn" / "modules" / "activation.py").exists():
+            root = _Path(p_) / "torch" / "nn" / "modules"
+            break
+    out: Dict[str, List[Tuple[str, int, List[str], str]]] = {}
+    if root is None:
+        return out
+    trees: Dict[str, Any] = {}
+    for cls_name, fname in NN_WRAPPERS.items():
+        if fname not in trees:
+            try:
+                trees[fname] = _ast.parse((root / fname).read_text())
+            except Exception:
+                trees[fname] = None
+        tree = trees[fname]
+        if tree is None:
+            continue
+        for node in tree.body:
+            if isinstance(node, _ast.ClassDef) and node.name == cls_name:
+                for m in node.body:
+                    if isinstance(m, _ast.FunctionDef) and m.name in ("forward", "_conv_forward"):
+                        for c in _ast.walk(m):
+                            if isinstance(c, _ast.Call) and isinstance(c.func, _ast.Attribute) and isinstance(c.func.value, _ast.Name) and c.func.value.id == "F":
+                                if any(isinstance(a, _ast.Starred) for a in c.args) or any(k.arg is None for k in c.keywords):
+                                    continue
+                                out.setdefault(cls_name, []).append((c.func.attr, len(c.args), [k.arg for k in c.keywords], f"torch/nn/modules/{fname}:{c.lineno}"))
+    return out
+
+
 # ------------------------------------------------------------------ scenario graphs
 # (name, op, target, args, kwargs); "%x" refers to node x
 Scenario = List[Tuple[str, str, Any, tuple, dict]]
@@ -413,6 +457,25 @@ def check(report: Report, repo: Repo) -> None:
         report.add("R1-rewrite", cons, got == exp, f"[{sname}] rewritten graph must equal the recipe; first difference: {d}", str(got)[:500], str(exp)[:500])
         report.add("R1-lint", cons, g.linted >= 1, f"[{sname}] graph.lint() runs on the result", g.linted, ">=1", nontrivial=False)
     report.floor("scenario graphs executed", n_sc, 7)
+
+    # ---- R1 call forms of torch.nn's own wrapper modules (what TorchDynamo inlines for nn.Softmax, nn.GELU, ...):
+    # read from the installed torch/nn/modules/*.py with ast; each must bind to the unit-scaled counterpart
+    n_forms = 0
+    for mod_name, forms in nn_wrapper_call_forms().items():
+        for fn_name, npos, kws, where in forms:
+            tgt_name = COUNTERPART.get(F + fn_name)
+            if tgt_name is None:
+                continue
+            n_forms += 1
+            target = it0.unwrap(it0.get_global(FN, tgt_name))
+            cons = f"{FN}::{tgt_name}::signature[nn.{mod_name}]"
+            try:
+                it0.bind(target, [O(f"a{i}") for i in range(npos)], {k_: O(k_) for k_ in kws})
+                report.add("R1-binds", cons, True, f"nn.{mod_name} calls F.{fn_name} with {npos} positional arguments and keywords {sorted(kws)} ({where}): binds to U.{tgt_name}", "binds", "binds", nontrivial=False)
+            except Unsupported as ex:
+                report.add("R1-binds", cons, False, f"nn.{mod_name} calls F.{fn_name} with {npos} positional arguments and keywords {sorted(kws)} ({where}); after unit_scale the same call goes to U.{tgt_name}, whose signature rejects it: {ex}", str(ex), "binds")
+    report.note("nn_wrapper_call_forms", n_forms)
+    report.floor("torch.nn wrapper call forms read from the installed sources", n_forms, 8)
 
     # ---- R3 unit_scale(): copy, reorder, re-initialise (run for real on an abstract module)
     it3 = Interp(repo)
